@@ -362,13 +362,13 @@ func (mw *msgWriter) addFiles(files []*File, isAttachment bool) {
 				disposition, mw.encoder.Encode(mw.charset.String(), sanitizeFilename(file.Name))))
 		}
 
-		if contentID, ok := file.getHeader(HeaderContentID); ok {
-			file.setHeader(HeaderContentID, mw.encoder.Encode(mw.charset.String(), contentID))
-		}
 		if !isAttachment {
 			if _, ok := file.getHeader(HeaderContentID); !ok {
 				file.setHeader(HeaderContentID, fmt.Sprintf("<%s>", sanitizeFilename(file.Name)))
 			}
+		}
+		if contentID, ok := file.getHeader(HeaderContentID); ok {
+			file.setHeader(HeaderContentID, mw.encoder.Encode(mw.charset.String(), contentID))
 		}
 		if mw.depth == 0 {
 			headers := make([]string, 0, len(file.Header))
